@@ -3223,6 +3223,9 @@ class NameCheckVisitor(node_visitor.ReplacingNodeVisitor):
                 # probably a docstring
                 elif isinstance(parent, ast.Expr):
                     return
+                # a literal piece of an f-string: "{{x}}" was written to get the braces
+                elif isinstance(parent, ast.JoinedStr):
+                    return
                 # Probably a function that does template-like interpolation itself. In practice
                 # this covers our translation API (translate("hello {user}", user=...)).
                 elif isinstance(parent, ast.Call):
